@@ -144,7 +144,7 @@ func (g *SchemaGen) stringInstance(s map[string]any, flip float64) string {
 	}
 	if p, ok := s["pattern"].(string); ok && g.R.P(0.7) {
 		for _, pp := range Patterns {
-			if pp.P == p {
+			if pp.P == BasePattern(p) {
 				if g.R.P(flip) {
 					return pp.No[g.R.Intn(len(pp.No))]
 				}
@@ -339,7 +339,7 @@ func (g *SchemaGen) objectInstance(root, s map[string]any, depth int, flip float
 			continue
 		}
 		for _, pp := range Patterns {
-			if pp.P == p {
+			if pp.P == BasePattern(p) {
 				k := pp.Yes[g.R.Intn(len(pp.Yes))]
 				o[k] = g.Instance(root, pats[p], depth+1, flip)
 			}
